@@ -265,3 +265,4 @@ def run(ctx):
     _run_rules(ctx)
     from .. import boundaries
     boundaries.check(ctx, 'C01.RB', 'C01')
+    boundaries.check_calls(ctx, 'C01.RC', 'C01')
